@@ -131,7 +131,8 @@ class Client:
         # an application that calls back into the library from inside its
         # callbacks (half of the clients when the world option is on)
         self.reentrant = bool(world.opts.get("reentrant")) and \
-            world.tape.choose(2, "reentrant") == 0
+            (world.tape.choose(2, "reentrant") == 0 or
+             bool(world.opts.get("status_heavy")))
         self.react_budget = world.tape.choose(3, "react") \
             if self.reentrant else 0
         self.saw_failure = False  # the app has been told about an error
@@ -143,6 +144,15 @@ class Client:
             kw["dilation"] = True
         if api == "delegate":
             kw["delegate"] = _Delegate(self)
+        self.w = None
+        self.statuses = 0
+        self.status_react = 0
+        if self.reentrant:
+            # ... such an application also asks for status updates and may
+            # send from inside that callback (e.g. a "status report")
+            self.status_react = world.tape.choose(3, "status_react") \
+                if not world.opts.get("status_heavy") else 4
+            kw["on_status_update"] = self._on_status
         self.w = wormhole.create(appid, url or world.server.url, sim.reactor,
                                  versions=self.versions, **kw)
         self.side = self.w._boss._side
@@ -293,6 +303,21 @@ class Client:
             self.api_errors.append((label, type(e).__name__, str(e)[:200]))
             self.world.sim.ev("api_exc!", self.name, label, type(e).__name__)
             return None
+
+    def _on_status(self, status):
+        self.statuses += 1
+        self.world.sim.ev("appev", self.name, "status",
+                          type(getattr(status, "mailbox_connection",
+                                       None)).__name__)
+        if self.w is None or self.status_react <= 0 or self.close_called \
+                or self.is_closed or not self.has("code") or \
+                self.world.winding_down:
+            return
+        if self.world.opts.get("status_heavy") or \
+                self.world.tape.choose(2, "status_send") == 0:
+            self.status_react -= 1
+            self.world.sim.note("probe.api_call_from_status_callback")
+            self.do_send(b"st:%s:%d" % (self.name.encode(), len(self.sent)))
 
     def do_close(self):
         primary = not self.close_called
@@ -636,8 +661,15 @@ class MailboxWorld:
             evs.extend(self.extra_app_events())
         return evs
 
+    winding_down = False
+
     def _step_op(self, c, op):
         c.pc += 1
+        if op[0] in ("wait_all_delivered", "wait_all_delivered_or_steps",
+                     "close"):
+            # somebody has decided that the conversation is over: no more
+            # unsolicited messages from status callbacks after this point
+            self.winding_down = True
         n_exp, n_err = len(c.expected_errors), len(c.api_errors)
         if self.before_op is not None:
             self.before_op(c, op)
